@@ -45,7 +45,8 @@ Menu == <<
   Ent("C3", "Valid", <<Cv("b", "PEG", 1, "pDCR")>>),
   Ent("C4", "Valid", <<Cv("a", "PEG", 2, "pUSD"), Tx("a", "pUSD", 4, <<Out("b", 4)>>)>>),
   Ent("C5", "Valid", <<Cv("b", "pUSD", 2, "PEG")>>),
-  Ent("U1", "badsig", <<Tx("a", "pUSD", 1, <<Out("b", 1)>>)>>) >>
+  Ent("U1", "badsig", <<Tx("a", "pUSD", 1, <<Out("b", 1)>>)>>),
+  Ent("W1", "Valid", <<Tx("a", "pUSD", 1, <<Out("b", 2), Out("a", 1)>>)>>) >>      \* outputs exceed the input: no batch at all
 MenuIdx == 1..Len(Menu)
 EntrySeqs == {<<>>} \cup {<<Menu[i]>> : i \in MenuIdx} \cup {<<Menu[p[1]], Menu[p[2]]>> : p \in Pairs}
 
